@@ -694,3 +694,160 @@ Lemma rdd_join_family (K V W : Type) (keqb : K -> K -> bool) :
   forall m (xs : list (K * V)) (ys : list (K * W)),
   Permutation (rdd_join_by keqb m xs ys) (nl_by keqb m xs ys).
 Proof. intros H m xs ys. apply (rdd_join_by_perm keqb H). Qed.
+
+(* ------------------------------------------------------------------------------------------ *)
+(** * error behaviour (errors are values of the model) *)
+Lemma get_on_field_none s c : name_mem c (names_of s) = false -> get_on_field s c = None.
+Proof.
+  unfold get_on_field, names_of, name_mem. induction s as [|f s IH]; simpl; [reflexivity|].
+  intros H. apply orb_false_iff in H. destruct H as [H1 H2].
+  destruct (name_eqb (fname f) c) eqn:E.
+  - apply name_eqb_spec in E. subst. assert (E : name_eqb (fname f) (fname f) = true) by now apply name_eqb_spec.
+    congruence.
+  - now apply IH.
+Qed.
+
+Lemma get_on_fields_none s on :
+  forallb (fun c => name_mem c (names_of s)) on = false -> get_on_fields s on = None.
+Proof.
+  induction on as [|c on IH]; simpl; [discriminate|]. intros H. apply andb_false_iff in H.
+  destruct H as [H|H].
+  - now rewrite get_on_field_none.
+  - rewrite (IH H). now destruct (get_on_field s c).
+Qed.
+
+(* an `on` name that one side lacks: merge_schemas' next() raises StopIteration before any row is touched *)
+Lemma df_join_unshared how_str h on l r :
+  lookup_how (normalise_how how_str) join_types = Some h -> h <> CROSS_JOIN ->
+  forallb (fun c => name_mem c (names_of (t_schema l))) on && forallb (fun c => name_mem c (names_of (t_schema r))) on = false ->
+  df_join l r (OnList on) how_str = Err StopIteration.
+Proof.
+  intros E Hc H. rewrite (df_join_on_list l r on how_str h E Hc).
+  unfold internal_join, merge_schemas. apply andb_false_iff in H. destruct H as [H|H].
+  - now rewrite (get_on_fields_none _ _ H).
+  - rewrite (get_on_fields_none _ _ H). now destruct (get_on_fields (t_schema l) on).
+Qed.
+
+Lemma df_join_invalid_how how_str on l r :
+  lookup_how (normalise_how how_str) join_types = None -> df_join l r on how_str = Err IllegalArgumentException.
+Proof. intros E. unfold df_join. now rewrite E. Qed.
+
+Lemma df_join_cross_with_on how_str cs l r :
+  lookup_how (normalise_how how_str) join_types = Some CROSS_JOIN ->
+  df_join l r (OnList cs) how_str = Err IllegalArgumentException.
+Proof. intros E. unfold df_join. now rewrite E. Qed.
+
+Lemma df_join_missing_on how_str h l r :
+  lookup_how (normalise_how how_str) join_types = Some h -> h <> CROSS_JOIN ->
+  df_join l r OnNone how_str = Err IllegalArgumentException.
+Proof. intros E Hc. unfold df_join. rewrite E. destruct h; try reflexivity. now contradiction Hc. Qed.
+
+(* ------------------------------------------------------------------------------------------ *)
+(** * rows agree with the declared schema -- also for tables with duplicate column names
+      (columns then selected by bound-field identity, as the code does) *)
+Lemma other_parts_fields s fs x :
+  length (row_values x) = length s -> map fst (other_parts s fs x) = names_of (other_fields s fs).
+Proof.
+  unfold other_parts, other_fields, names_of. generalize (row_values x). intros vals. revert vals.
+  induction s as [|f s IH]; intros [|v vals]; simpl; try reflexivity; try discriminate.
+  intros [= H]. destruct (negb (field_mem f fs)); simpl; now rewrite IH.
+Qed.
+
+Definition declared_names (h : how) (on : list name) (ls rs : schema) (lof rof : list field) : list name :=
+  on ++ names_of (other_fields ls lof) ++ (if is_semi_anti h then [] else names_of (other_fields rs rof)).
+
+Lemma merge_schemas_declared ls rs h on lof rof :
+  get_on_fields ls on = Some lof -> get_on_fields rs on = Some rof ->
+  exists s, merge_schemas ls rs h on = Ok s /\ names_of s = declared_names h on ls rs lof rof.
+Proof.
+  intros El Er. unfold merge_schemas. rewrite El, Er.
+  destruct (schema_on_fields h) as [choice|] eqn:Ech; [|destruct h; discriminate].
+  eexists. split; [reflexivity|]. unfold declared_names, names_of. rewrite !map_app.
+  rewrite drops_right_semi_anti. f_equal.
+  - destruct choice.
+    + now apply (get_on_fields_names ls).
+    + now apply (get_on_fields_names rs).
+    + rewrite map_map. simpl. now apply (get_on_fields_names ls).
+  - now destruct (is_semi_anti h).
+Qed.
+
+Lemma merge_joined_declared ls rs h on lof rof L R e :
+  get_on_fields ls on = Some lof -> get_on_fields rs on = Some rof ->
+  Forall (row_ok ls) L -> Forall (row_ok rs) R -> shape_ok h ls rs L R e ->
+  exists x, merge_joined ls rs h on (fst e) (snd e) = Ok x /\
+    row_fields x = declared_names h on ls rs lof rof /\ length (row_values x) = length (row_fields x).
+Proof.
+  intros El Er HL HR Hs. unfold merge_joined. rewrite El, Er, right_parts_semi_anti.
+  rewrite Forall_forall in HL, HR.
+  assert (Hk : forall src : row, map fst (map (fun c => (c, row_get src c)) on) = on)
+    by (intros; rewrite map_map; apply map_id).
+  assert (Pn : forall s fs x, row_ok s x -> map fst (other_parts s fs x) = names_of (other_fields s fs))
+    by (intros; now apply other_parts_fields).
+  unfold declared_names, row_from_keyed_values, row_fields, row_values.
+  destruct e as [[l|] [r|]]; cbn [fst snd] in Hs |- *.
+  - destruct Hs as [Hl Hr].
+    destruct (is_semi_anti h); cbn [negb]; eexists; (split; [reflexivity|]); cbn [fst snd];
+      (split; [rewrite !map_app, Hk, ?Pn, ?app_nil_r by auto; reflexivity | now rewrite !map_length]).
+  - destruct Hs as [Hl Hpad]. destruct (is_semi_anti h) eqn:Esa; cbn [negb].
+    + eexists; (split; [reflexivity|]); cbn [fst snd].
+      split; [rewrite !map_app, Hk, ?Pn, ?app_nil_r by auto; reflexivity | now rewrite !map_length].
+    + destruct Hpad as [Hpad|Hpad]; [|discriminate]. rewrite Hpad.
+      eexists; (split; [reflexivity|]); cbn [fst snd].
+      split; [rewrite !map_app, Hk, ?Pn by (auto; apply null_row_length); reflexivity | now rewrite !map_length].
+  - destruct Hs as [Hr Hpad]. rewrite Hpad.
+    assert (Esa : is_semi_anti h = false) by (destruct h; try reflexivity; vm_compute in Hpad; discriminate).
+    rewrite Esa. cbn [negb]. eexists; (split; [reflexivity|]); cbn [fst snd].
+    split; [rewrite !map_app, Hk, ?Pn by (auto; apply null_row_length); reflexivity | now rewrite !map_length].
+  - contradiction.
+Qed.
+
+Lemma sequence_forall {A B} (f : A -> result B) (P : B -> Prop) l :
+  Forall (fun a => exists b, f a = Ok b /\ P b) l -> exists bs, sequence (map f l) = Ok bs /\ Forall P bs.
+Proof.
+  induction l as [|a l IH]; simpl; intros H; [exists []; split; [reflexivity|constructor]|].
+  inversion H as [|? ? [b [Hb Pb]] Hl]; subst. destruct (IH Hl) as [bs [Ebs Pbs]].
+  exists (b :: bs). rewrite Hb, Ebs. split; [reflexivity | now constructor].
+Qed.
+
+Lemma internal_join_rows_match_schema h on l r :
+  h <> CROSS_JOIN ->
+  forallb (fun c => name_mem c (names_of (t_schema l))) on && forallb (fun c => name_mem c (names_of (t_schema r))) on = true ->
+  Forall (row_ok (t_schema l)) (t_rows l) -> Forall (row_ok (t_schema r)) (t_rows r) ->
+  exists s rows, internal_join l r (Some on) h = Ok (s, rows) /\
+    Forall (fun x => row_fields x = names_of s /\ length (row_values x) = length (names_of s)) rows.
+Proof.
+  intros Hc Hsh HL HR. apply andb_true_iff in Hsh. destruct Hsh as [Hl Hr].
+  assert (Fl : Forall (fun c => In c (names_of (t_schema l))) on).
+  { apply Forall_forall. intros c Hin. rewrite forallb_forall in Hl. now apply name_mem_in, Hl. }
+  assert (Fr : Forall (fun c => In c (names_of (t_schema r))) on).
+  { apply Forall_forall. intros c Hin. rewrite forallb_forall in Hr. now apply name_mem_in, Hr. }
+  destruct (get_on_fields_exists _ _ Fl) as [lof El]. destruct (get_on_fields_exists _ _ Fr) as [rof Er].
+  destruct (merge_schemas_declared _ _ h on lof rof El Er) as [s [Es En]].
+  destruct (rdd_method_exists h) as [m Hm].
+  unfold internal_join. rewrite Es. unfold join_on_values. rewrite Hm, !add_key_akey by exact Hc.
+  set (J := rdd_join_by key_eqb m _ _).
+  assert (HP : Permutation J (nl_by key_eqb m (map (akey on) (t_rows l)) (map (akey on) (t_rows r))))
+    by apply (rdd_join_by_perm key_eqb key_eqb_spec).
+  assert (HS : Forall (fun e => shape_ok h (t_schema l) (t_schema r) (t_rows l) (t_rows r) (snd e)) J).
+  { eapply Permutation_Forall; [symmetry; exact HP|]. now apply nl_shapes. }
+  destruct (sequence_forall
+              (fun e => merge_joined (t_schema l) (t_schema r) h on (fst (snd e)) (snd (snd e)))
+              (fun x => row_fields x = names_of s /\ length (row_values x) = length (names_of s)) J)
+    as [rows [Erows Prows]].
+  { eapply Forall_impl; [|exact HS]. intros e He.
+    destruct (merge_joined_declared _ _ h on lof rof _ _ (snd e) El Er HL HR He) as [x [Ex [Fx Lx]]].
+    exists x. split; [exact Ex|]. rewrite En, <- Fx. now split. }
+  exists s, rows. rewrite Erows. now split.
+Qed.
+
+Lemma df_join_rows_match_schema how_str h on l r :
+  lookup_how (normalise_how how_str) join_types = Some h -> h <> CROSS_JOIN ->
+  forallb (fun c => name_mem c (names_of (t_schema l))) on && forallb (fun c => name_mem c (names_of (t_schema r))) on = true ->
+  Forall (fun x => length (row_values x) = length (t_schema l)) (t_rows l) ->
+  Forall (fun x => length (row_values x) = length (t_schema r)) (t_rows r) ->
+  exists s rows, df_join l r (OnList on) how_str = Ok (s, rows) /\
+    Forall (fun x => row_fields x = names_of s /\ length (row_values x) = length (names_of s)) rows.
+Proof.
+  intros E Hc Hsh HL HR. rewrite (df_join_on_list l r on how_str h E Hc).
+  now apply internal_join_rows_match_schema.
+Qed.
